@@ -19,12 +19,12 @@ const modPath = "github.com/hashicorp/go-plugin"
 // Prog is the loaded, type-checked program of the working tree (engine E1).
 type Prog struct {
 	fieldsFlattened bool
-	fieldNames map[*types.Var]string
-	Dir        string
-	Fset       *token.FileSet
-	Pkgs       map[string]*packages.Package // by import path, module packages only
-	All        []*packages.Package
-	Funcs      []*Func // every FuncDecl and FuncLit with a body in scope packages
+	fieldNames      map[*types.Var]string
+	Dir             string
+	Fset            *token.FileSet
+	Pkgs            map[string]*packages.Package // by import path, module packages only
+	All             []*packages.Package
+	Funcs           []*Func // every FuncDecl and FuncLit with a body in scope packages
 	// lookup tables
 	declOf      map[*types.Func]*Func
 	litOf       map[*ast.FuncLit]*Func
